@@ -210,12 +210,18 @@ def apply_call(obj, cfg, call, dtype, rng, refset, readlin=True):
             if cls == "NLS" and u.numel() == 1 and rng.random() < 0.2:
                 u = u.reshape(())                      # a scalar input (forward applies atleast_1d)
             xn, y = obj(x, u)
+            def enc2(t):          # always a list of rows, whatever shape came back (a wrong shape is then a wrong value
+                if t.dim() == 0:  # for the trace spec, not a type error inside TLC)
+                    return [[enc_t(t)]]
+                if t.dim() == 1:
+                    return [enc_t(t)]
+                return enc_t(t.reshape([-1, t.shape[-1]]))
+
             if cls == "NLS":
-                ev["out"] = [{"xn": [enc_t(xn)], "y": [enc_t(y)], "orank": 0}]
+                ev["out"] = [{"xn": enc2(xn) if xn.dim() != 1 else [enc_t(xn)], "y": enc2(y) if y.dim() != 1 else [enc_t(y)],
+                              "orank": 0}]
             else:
-                orank = xn.dim() - 1
-                ev["out"] = [{"xn": enc_t(xn) if orank else [enc_t(xn)], "y": enc_t(y) if y.dim() > 1 else [enc_t(y)],
-                              "orank": orank}]
+                ev["out"] = [{"xn": enc2(xn), "y": enc2(y), "orank": max(xn.dim(), y.dim()) - 1}]
         elif op == "Reset":
             v = call["v"][0]
             k = rng.randrange(3)
